@@ -461,7 +461,9 @@ func specialLeg(run *vlib.Run) {
 		// registers on it later)
 		sc.plan = &plan{fails: sc.plan.fails, res: reactive.NewResource()}
 		t0 := time.Now()
-		if mutation {
+		if !mutation && i%12 == 0 {
+			wsMiddlewareOverlap(run, caseIdx, sc, b, zero, 1+r.Intn(7), int64(r.Intn(50)))
+		} else if mutation {
 			wsMutate(run, caseIdx, sc, b, zero)
 		} else {
 			wsScenarioCtx(run, caseIdx, sc, b, context.WithValue(context.Background(), spZeroKey{}, zero))
@@ -470,6 +472,150 @@ func specialLeg(run *vlib.Run) {
 			fmt.Printf("SLOW special case %d took %v mutation=%v zero=%v onPath=%d fails=%v runs=%d calls=%d\n  %s\n", i, d, mutation, zero, len(sc.onPath), planText(sc.plan), atomic.LoadInt64(&sc.plan.runs), atomic.LoadInt64(&sc.plan.calls), sc.text)
 		}
 	})
+}
+
+// wsMiddlewareOverlap serves one connection with k pass-through middlewares
+// (the last one parks the subscription's first run until a mutation sent
+// meanwhile has entered the same middleware) and runs a subscription and a
+// mutation that overlap in time. Each must be answered as if it were alone.
+func wsMiddlewareOverlap(run *vlib.Run, caseIdx int, sc *scenario, b *built, zero bool, k int, by int64) {
+	sock := newFakeSocket()
+	ctx, cancel := context.WithCancel(context.WithValue(context.Background(), spZeroKey{}, zero))
+	defer cancel()
+	mplan := &plan{}
+	conn := graphql.CreateConnection(ctx, sock, b.schema, graphql.WithMinRerunInterval(time.Millisecond),
+		graphql.WithMakeCtx(func(ctx context.Context) context.Context { return ctx }))
+	subInside, mutInside := make(chan struct{}), make(chan struct{})
+	var gateCalls, overlapped int32
+	for i := 0; i < k; i++ {
+		last := i == k-1
+		conn.Use(func(in *graphql.ComputationInput, next graphql.MiddlewareNextFunc) *graphql.ComputationOutput {
+			if in.Id == "s1" {
+				in.Ctx = withPlan(in.Ctx, sc.plan)
+			} else {
+				in.Ctx = withPlan(in.Ctx, mplan)
+			}
+			if last {
+				switch atomic.AddInt32(&gateCalls, 1) {
+				case 1: // the subscription's first run: wait for the mutation to get here
+					close(subInside)
+					select {
+					case <-mutInside:
+						atomic.StoreInt32(&overlapped, 1)
+					case <-time.After(2 * time.Second):
+					}
+				case 2:
+					close(mutInside)
+				}
+			}
+			return next(in)
+		})
+	}
+	done := make(chan struct{})
+	go func() { defer close(done); conn.ServeJSONSocket() }()
+	defer func() {
+		sock.Close()
+		select {
+		case <-done:
+		case <-time.After(30 * time.Second):
+			run.Inconclusive(fmt.Sprintf("case %d: ServeJSONSocket did not return within 30s of socket close", caseIdx))
+		}
+	}()
+	activity := func() int64 {
+		return atomic.LoadInt64(&sock.writes) + atomic.LoadInt64(&sc.plan.calls) + atomic.LoadInt64(&mplan.calls)
+	}
+	sock.in <- map[string]interface{}{"id": "s1", "type": "subscribe", "message": map[string]interface{}{"query": sc.text, "variables": sc.vars}}
+	select {
+	case <-subInside:
+	case <-time.After(10 * time.Second):
+		run.Inconclusive(fmt.Sprintf("case %d: the subscription's first run never reached the last middleware", caseIdx))
+		return
+	}
+	mtext := fmt.Sprintf("mutation { bump(by: %d) }", by)
+	sock.in <- map[string]interface{}{"id": "m1", "type": "mutate", "message": map[string]interface{}{"query": mtext, "variables": map[string]interface{}{}}}
+	sock.in <- map[string]interface{}{"id": "e1", "type": "echo"}
+	answered := func() bool {
+		saw := map[string]bool{}
+		for _, e := range sock.envelopes() {
+			saw[e.ID] = true
+		}
+		return saw["e1"] && saw["m1"] && saw["s1"]
+	}
+	wit := map[string]interface{}{"query": sc.text, "plan": planText(sc.plan), "mutation": mtext, "config": b.name, "middlewares_registered": k}
+	switch vlib.WaitCond(answered, activity, 5*time.Second, 60*time.Second) {
+	case vlib.QuiescentNot:
+		wit["what"], wit["envelopes"] = "overlapping subscription and mutation on a connection with middlewares: not both answered and the connection went quiet", vlib.Trunc(fmt.Sprint(sock.envelopes()), 2000)
+		run.Violation(caseIdx, "", wit)
+		return
+	case vlib.Undecided:
+		run.Inconclusive(fmt.Sprintf("case %d: overlap scenario still active at the hard deadline", caseIdx))
+		return
+	}
+	never := func() bool { return false }
+	vlib.WaitCond(never, activity, 20*time.Millisecond, 60*time.Second)
+	envs := sock.envelopes()
+	wit["envelopes"] = vlib.Trunc(fmt.Sprint(envs), 3000)
+	failing := len(sc.onPath) > 0
+	run.Case(fmt.Sprintf("ws-middleware-overlap|%d|%v", k, failing), true)
+	run.Count("ws_middleware_overlap_scenarios", 1)
+	if atomic.LoadInt32(&overlapped) == 1 {
+		run.Count("ws_middleware_overlap_achieved", 1)
+	}
+	var sErr, sUpd, mRes, mErr int
+	var client interface{} = vlib.Undefined{}
+	for _, e := range envs {
+		switch {
+		case e.ID == "s1" && e.Type == "error":
+			sErr++
+			var msg string
+			_ = json.Unmarshal(e.Message, &msg)
+			if why := checkClientMessage(sc, msg, string(e.Message)); why != "" {
+				wit["what"], wit["message"] = why, msg
+				run.Violation(caseIdx, "", wit)
+			}
+		case e.ID == "s1" && e.Type == "update":
+			sUpd++
+			var delta interface{}
+			if err := json.Unmarshal(e.Message, &delta); err == nil {
+				if next, merr := vlib.MergeTS(client, delta); merr == nil {
+					client = next
+				}
+			}
+		case e.ID == "m1" && e.Type == "result":
+			mRes++
+			var delta interface{}
+			_ = json.Unmarshal(e.Message, &delta)
+			got, _ := vlib.MergeTS(vlib.Undefined{}, delta)
+			if g, w := vlib.Canon(got), vlib.Canon(map[string]interface{}{"bump": by + 1}); g != w {
+				wit["what"], wit["got"], wit["want"] = "the mutation's result is not its own", g, w
+				run.Violation(caseIdx, "", wit)
+			}
+		case e.ID == "m1" && e.Type == "error":
+			mErr++
+		}
+	}
+	if mRes != 1 || mErr != 0 {
+		wit["what"] = fmt.Sprintf("healthy mutation overlapping a subscription: expected exactly one result and no error, got %d result / %d error", mRes, mErr)
+		run.Violation(caseIdx, "", wit)
+	}
+	if n := atomic.LoadInt64(&mplan.calls); n != 1 {
+		wit["what"] = fmt.Sprintf("the mutation resolver ran %d times, expected once", n)
+		run.Violation(caseIdx, "", wit)
+	}
+	if failing {
+		if sErr != 1 || sUpd != 0 {
+			wit["what"] = fmt.Sprintf("initially failing subscription overlapping a mutation: expected exactly one error envelope and no update, got %d error / %d update", sErr, sUpd)
+			run.Violation(caseIdx, "", wit)
+		}
+	} else {
+		var wantJ interface{}
+		_ = json.Unmarshal([]byte(sc.want), &wantJ)
+		if got, want := vlib.Canon(client), vlib.Canon(diff.StripKey(wantJ)); sErr != 0 || got != want {
+			wit["what"] = "healthy subscription overlapping a mutation: client state differs from the query result (or an error was sent)"
+			wit["client"], wit["want"] = vlib.Trunc(got, 1500), vlib.Trunc(want, 1500)
+			run.Violation(caseIdx, "", wit)
+		}
+	}
 }
 
 // wsMutate sends the scenario as a "mutate" message: exactly one envelope must
